@@ -30,6 +30,9 @@ Fixpoint val_agree (a b : pval) {struct a} : bool :=
     match a, b with
     | VArr d1 s1 t1 _, VArr d2 s2 t2 _ =>
         shape_eqb s1 s2 && ((t1 =? -1) || (t2 =? -1) || (String.eqb d1 d2 && (t1 =? t2)))
+    (* a 0-d array and a numpy scalar of the same dtype and bytes are the same number *)
+    | VArr d1 [] t1 _, VNp d2 t2 _ | VNp d1 t1 _, VArr d2 [] t2 _ =>
+        (t1 =? -1) || (t2 =? -1) || (String.eqb d1 d2 && (t1 =? t2))
     | VTuple l1, VTuple l2 | VList l1, VList l2 | VTuple l1, VList l2 | VList l1, VTuple l2 =>
         (fix go (l1 l2 : list pval) : bool :=
            match l1, l2 with
